@@ -416,11 +416,21 @@ func (w *writer) relationDef(r *Rewrite, restr []Restriction, first, top bool) {
 	// redundant parentheses around the whole definition / any operand
 	if w.pick(8, "redundant_parens") == 7 {
 		w.feat["redundant-parens"] = true
-		w.emit("(")
-		w.ows(0)
+		// one pair, or (one time in six) many pairs at once: depths around 8, 16 and 32
+		pairs := 1
+		if w.pick(6, "paren_pairs") == 5 {
+			pairs = []int{7, 8, 9, 15, 16, 17, 33}[w.pick(7, "paren_pairs_n")]
+			w.feat["deep-redundant-parens"] = true
+		}
+		for i := 0; i < pairs; i++ {
+			w.emit("(")
+			w.ows(0)
+		}
 		w.relationDef(r, restr, first, false)
-		w.ows(0)
-		w.emit(")")
+		for i := 0; i < pairs; i++ {
+			w.ows(0)
+			w.emit(")")
+		}
 		return
 	}
 	switch r.Kind {
